@@ -507,7 +507,7 @@ func init() {
 	lib.Register(&lib.Check{
 		ID:    "C02",
 		Level: "exploration",
-		Rule: "every event program of <= N events (N=4; delays 0..2 quick, 0..3 thorough) x every non-decreasing sequence of 1..3 RunUntil boundaries over {0..Tmax+1} followed by Run, on the real SerialEngine; " +
+		Rule: "every event program of <= N events (N=4; delays 0..2 quick, 0..3 thorough) x every non-decreasing sequence of 1..3 RunUntil boundaries over {0..Tmax+1} followed by Run, on the real SerialEngine; plus the scale family of C01 (every burst size 8..300, thorough 800, seven shapes) with boundary sequences {0}, {T/2}, {T/2,T/2}, {T/3,2T/3,T+1}; " +
 			"oracle: concatenated handled sequence == reference single-Run sequence; after each RunUntil(t) nothing later than t was handled, nothing <= t remains, clock == last handled event. Each (program, boundary sequence) is a distinct case.",
 		Sharded:     true,
 		MinOutcomes: 10,
@@ -531,6 +531,17 @@ func init() {
 							return true
 						}
 						if !rec(0, 0) {
+							return false
+						}
+					}
+					return true
+				})
+				// scale family: every burst size with boundaries in front of,
+				// inside and behind the burst
+				enumBursts(lib.Pick(c, 300, 800), func(n []progNode) bool {
+					tm := maxTime(n)
+					for _, b := range [][]int{{0}, {tm / 2}, {tm / 2, tm / 2}, {tm / 3, 2 * tm / 3, tm + 1}} {
+						if !yield(engCase{Nodes: n, Bound: b, Hook: len(n)%2 == 1}) {
 							return false
 						}
 					}
